@@ -115,6 +115,30 @@ def check_update(case, out, backends, rng=None):
                 f"einx.{case.op}({case.desc()!r}, shapes={case.in_shapes}) backend={b}: element {bad[0]}: {bad[1]}; orig={bad[2]} contributions={bad[3]} got={bad[4]}",
             )
             continue
+        # an explicit output may list the target's axes in another order (bracketed ones keeping their relative order): the result is the same
+        # tensor, transposed alike. Not for set_at with competing duplicates (either winner is allowed, per call).
+        if rng is not None and (case.op != "set_at" or not dup) and len(case.eff_outputs[0]) >= 2 and rng.random() < 0.5 and not risk:
+            from .c08 import bracket_preserving_perm, dims_perm
+            from ..gen.expr import copy_expr, pr_desc
+            oitems = case.eff_outputs[0]
+            perm = bracket_preserving_perm(rng, oitems)
+            if perm != list(range(len(oitems))):
+                outs = [[copy_expr([oitems[k]])[0] for k in perm]]
+                dp = dims_perm(oitems, perm, case)
+                desc2 = pr_desc(case.inputs, outs)
+                t2 = [np.array(t, copy=True) for t in case.tensors]
+                import einx as _einx
+                bk2 = {} if b is None or str(b).startswith("with:") else {"backend": b}
+                out.count("permuted_output_calls")
+                try:
+                    r2 = np.asarray(getattr(_einx, case.op)(desc2, *t2, **kw, **bk2))
+                    if r2.shape != np.transpose(res, dp).shape or not np.array_equal(r2, np.transpose(res, dp)):
+                        out.violation({"kind": "permuted-output-differs", "family": "update", "op": case.op}, {"case": case.to_json(), "permuted_desc": desc2, "backend": b},
+                                      f"einx.{case.op}({desc2!r}) is not the transposed result of {case.desc()!r}")
+                    else:
+                        out.count("permuted_output_agree")
+                except Exception as e:  # noqa
+                    out.count(f"permuted_output_rejected:{type(e).__name__}")
         # read back with get_at (set_at only): every position reads one of the values written there
         if case.op == "set_at" and rng is not None and rng.random() < 0.5:
             readback(case, res, contrib, out, b)
@@ -211,6 +235,8 @@ def finalize(agg, tier, seed):
     for op in ("set_at", "add_at", "subtract_at"):
         if c.get(f"op:{op}", 0) < 50:
             agg.inconclusive.append(f"{op} observed only {c.get(f'op:{op}', 0)} times")
+    if c.get("permuted_output_agree", 0) < 50:
+        agg.inconclusive.append(f"only {c.get('permuted_output_agree', 0)} agreeing calls with a permuted output expression")
     if c.get("mixed_dtype_cases", 0) < 50:
         agg.inconclusive.append("fewer than 50 cases with mixed target / update dtypes")
     if c.get("cases_with_duplicates", 0) < 50:
